@@ -149,6 +149,17 @@ def case_export(run, i):
         _write_tab(segf, cols)
         sex = "female" if female else "male"
         common = ["--ploidy", str(ploidy), "-x", sex] + (["-y"] if male_ref else []) + (["--diploid-parx-genome", par] if par else [])
+        # plumbing of the options into export_bed / export_vcf (the function monitors judge the calls themselves)
+        from ..monitors import cli_plumb
+        show = ["all", "variant", "ploidy"][(i // 4) % 3]
+        r = cli_plumb.check_cli(run, rt, E, "export_bed", ["export", "bed", segf, "--show", show, "-o", os.path.join(d, "p.bed")] + common,
+                                dict(ploidy=ploidy, is_haploid_x_reference=male_ref, is_sample_female=female, diploid_parx_genome=par, show=show, label="SampleA"), "export-bed")
+        if r is not None:
+            cli_plumb.held(run, "export-bed", "cli-export-bed")
+        r = cli_plumb.check_cli(run, rt, E, "export_vcf", ["export", "vcf", segf, "-o", os.path.join(d, "p.vcf"), "-i", "LBL"] + common,
+                                dict(ploidy=ploidy, is_haploid_x_reference=male_ref, is_sample_female=female, diploid_parx_genome=par, sample_id="LBL", cnarr=None), "export-vcf")
+        if r is not None:
+            cli_plumb.held(run, "export-vcf", "cli-export-vcf")
         for argv in (["export", "bed", segf, "--show", "variant", "-o", os.path.join(d, "o.bed")] + common,
                      ["export", "vcf", segf, "-o", os.path.join(d, "o.vcf")] + common,
                      ["export", "seg"] + files + ["-o", os.path.join(d, "o.seg")],
@@ -167,7 +178,7 @@ def case_export(run, i):
 
 
 WORKLOADS = {"export": (_n, case_export)}
-_Q = {"export.export_bed|held": 800, "export.export_vcf|held": 500, "export.export_seg|held": 300, "export.merge_samples|held": 250,
+_Q = {"cli.export-bed[plumbing]|held": 40, "cli.export-vcf[plumbing]|held": 40, "export.export_bed|held": 800, "export.export_vcf|held": 500, "export.export_seg|held": 300, "export.merge_samples|held": 250,
       "export.fmt_jtv|held": 120, "export.fmt_cdt|held": 120, "export.export_nexus_basic|held": 300, "class:merge:refused-mismatch": 20,
       "class:merge:refused-duplicate-id": 20}
 QUOTAS = {"quick": _Q, "thorough": _Q}
